@@ -494,6 +494,10 @@ func (m *mach) equal(a, b mv) (bool, bool) {
 			if sa == sb || sa.name == sb.name {
 				return true, true
 			}
+			if sa.rt != nil && sb.rt != nil && sa.rv == nil && sb.rv == nil {
+				// two reflect.Type descriptors of known types: equal exactly when the types are identical
+				return types.Identical(sa.rt, sb.rt), true
+			}
 			return false, false
 		}
 		s, o := sa, b
@@ -855,13 +859,36 @@ func (m *mach) load(addr mv, t types.Type, at ssa.Instruction) mv {
 	return nil
 }
 
+// storeInPlace assigns val to the variable at p. A struct or array variable keeps its cells: addresses of
+// its fields and elements taken before the assignment (x = T{f: x.f} is built as field addresses, then
+// *x = zero, then the field stores) still denote the variable afterwards, as in Go.
+func storeInPlace(p *mv, val mv) {
+	switch nv := val.(type) {
+	case mStruct:
+		if old, ok := (*p).(mStruct); ok && len(old) == len(nv) {
+			for i := range nv {
+				storeInPlace(&old[i], nv[i])
+			}
+			return
+		}
+	case mArray:
+		if old, ok := (*p).(mArray); ok && len(old) == len(nv) {
+			for i := range nv {
+				storeInPlace(&old[i], nv[i])
+			}
+			return
+		}
+	}
+	*p = mcopy(val)
+}
+
 func (m *mach) store(addr, val mv, at ssa.Instruction) {
 	switch p := addr.(type) {
 	case *mv:
 		if p == nil {
 			m.throw(m.sym("runtime error: invalid memory address or nil pointer dereference", nil), "nil pointer dereference at %s", m.c.Pos(at.Pos()))
 		}
-		*p = mcopy(val)
+		storeInPlace(p, val)
 		return
 	case mNilT:
 		m.throw(m.sym("runtime error: invalid memory address or nil pointer dereference", nil), "nil pointer dereference at %s", m.c.Pos(at.Pos()))
@@ -1355,6 +1382,31 @@ func (m *mach) invoke(fr *mframe, fn mv, args []mv, env []mv, at ssa.Instruction
 			case "String":
 				// as package reflect prints types: qualified by the package name, not its path
 				return types.TypeString(f.recv.rt, func(p *types.Package) string { return p.Name() })
+			case "PkgPath", "Name":
+				// of a defined type: its package path (empty for the predeclared types) and its name; both empty
+				// for an unnamed type
+				var obj *types.TypeName
+				switch nt := types.Unalias(f.recv.rt).(type) {
+				case *types.Named:
+					obj = nt.Obj()
+				case *types.Basic:
+					if f.method.Name() == "Name" {
+						return nt.Name()
+					}
+					return ""
+				default:
+					return ""
+				}
+				if f.method.Name() == "Name" {
+					if nt := types.Unalias(f.recv.rt).(*types.Named); nt.TypeArgs().Len() == 0 {
+						return obj.Name()
+					}
+					break // an instantiated generic type prints its arguments: outside the model
+				}
+				if obj.Pkg() == nil {
+					return "" // error
+				}
+				return obj.Pkg().Path()
 			}
 		}
 		if f.recv.msg != nil && f.method.Name() == "Error" && len(args) == 0 {
